@@ -10,11 +10,13 @@ Import ListNotations.
 Local Open Scope Z_scope.
 
 (* ---- clause: each command takes effect or is refused exactly as the
-   documented run-state / replication-state rules prescribe ---- *)
+   documented run-state / replication-state rules prescribe (Lifecycle.table;
+   start / step / bounded runs are refused when the clock is *beyond* the
+   replication end - at the end itself a paused run can still be resumed) ---- *)
 Theorem C04_accept_refuse_table :
   forall fuel p st s c, reachable fuel p st s ->
     snd (do_cmd fuel p s c)
-    = table c (rs s) (ps s) (end_time s <=? clock s) (bound_ok c (clock s)).
+    = table c (rs s) (ps s) (end_time s <? clock s) (bound_ok c (clock s)).
 Proof. exact accept_refuse_table. Qed.
 Print Assumptions C04_accept_refuse_table.
 
